@@ -320,7 +320,9 @@ def w_frames_api(job):
 
 
 E2E_CONSTS = [0, 1, -1, 63, 64, -64, -65, 127, 128, 8191, 8192, -8192, -8193, 1 << 20, (1 << 31) - 1, -(1 << 31) + 1,
-              1048575, 1048576, -1048576, -1048577, 134217727, 134217728, -134217728, -134217729]
+              1048575, 1048576, -1048576, -1048577, 134217727, 134217728, -134217728, -134217729, -(1 << 31)]
+# unsigned constants (they reach the emitter when the optimiser folds uint(<literal>)): written as the two's complement immediate
+E2E_UCONSTS = [0, 1, 127, 128, (1 << 31) - 1, 1 << 31, (1 << 31) + 1, 3000000000, (1 << 32) - 2, (1 << 32) - 1]
 
 
 def w_e2e(job):
@@ -330,16 +332,22 @@ def w_e2e(job):
     fails = []
     n = 0
     for k in range(lo, hi):
+        opts = {"wasm": True}
         if kind == "const":
             v = E2E_CONSTS[k]
             lit = str(v)
             src = f"export function f(int a) -> int {{ return a + {lit}; }}"
             want_consts = [v]
+        elif kind == "uconst":
+            v = E2E_UCONSTS[k]
+            src = f"export function f(uint u) -> uint {{ return u + uint({v}); }}"
+            want_consts = [v - (1 << 32) if v >= (1 << 31) else v]
+            opts = {"wasm": True, "optimize": True}
         else:
             body = " ".join(f"a = a + {i % 7 + 1};" for i in range(k))
             src = f"export function f(int a) -> int {{ {body} return a; }}"
             want_consts = None
-        res = compile_src(src, {"wasm": True})
+        res = compile_src(src, opts)
         n += 1
         if res.status != "ok" or res.wasm_bytes is None:
             # refusing to emit is not a C19 matter (C06/C07); nothing was written
@@ -352,7 +360,7 @@ def w_e2e(job):
                 if got != want_consts:
                     raise wasmref.Malformed(f"i32.const immediates decode to {got}, source has {want_consts}")
         except Exception as e:
-            fails.append({"key": f"C19|e2e|{kind}|{type(e).__name__}", "part": "e2e", "source": src, "options": {"wasm": True},
+            fails.append({"key": f"C19|e2e|{kind}|{type(e).__name__}", "part": "e2e", "source": src, "options": opts,
                           "expected": "constants and size fields decode to what was written",
                           "observed": f"{type(e).__name__}: {e}"})
     return n, _collapse(fails), []
@@ -403,6 +411,7 @@ def run(tier, seed):
     for lo in range(1, 300 if not thorough else 17000, 3000):
         jobs.append((w_frames_api, ("name", lo, min(300 if not thorough else 17000, lo + 3000))))
     jobs.append((w_e2e, ("const", 0, len(E2E_CONSTS))))
+    jobs.append((w_e2e, ("uconst", 0, len(E2E_UCONSTS))))
     ne = 40 if not thorough else 400
     for lo in range(1, ne, 100):
         jobs.append((w_e2e, ("stmts", lo, min(ne, lo + 100))))
